@@ -24,7 +24,10 @@ type c20Input struct {
 }
 
 var c20Msgs = []string{"", "Recording not started: motion detected but outside of recording window",
-	"Failed to write to CPTV file disk full", "making a snapshot", "100% of %d frames\\n weird %s"}
+	"Failed to write to CPTV file disk full", "making a snapshot", "100% of %d frames\\n weird %s",
+	// two different messages of the same length (file names that differ in one digit)
+	"Can't start recording file: open /var/spool/cptv/20260929.101501.000.cptv.temp: no space left on device",
+	"Can't start recording file: open /var/spool/cptv/20260929.101502.000.cptv.temp: no space left on device"}
 
 const zeroUnix = -62135596800 // unix seconds of Go's zero time
 
